@@ -65,18 +65,28 @@ func (g *ExprGen) varsOf(kind string) []VarBind {
 	return out
 }
 
-func (g *ExprGen) prefixFor(uri string) (string, bool) {
+var reservedWords = map[string]bool{"ancestor": true, "ancestor-or-self": true, "attribute": true, "child": true, "descendant": true,
+	"descendant-or-self": true, "following": true, "following-sibling": true, "namespace": true, "parent": true, "preceding": true,
+	"preceding-sibling": true, "self": true, "comment": true, "text": true, "processing-instruction": true, "node": true,
+	"and": true, "or": true, "div": true, "mod": true}
+
+// prefixFor returns a prefix bound to the URI.  Function and variable names cannot use a prefix that
+// spells an axis or node type (recorded known finding KF-reserved-function-names), so such
+// prefixes are returned only for name tests (allowReserved).
+func (g *ExprGen) prefixForKind(uri string, allowReserved bool) (string, bool) {
 	if uri == "" {
 		return "", true
 	}
 	m := g.Env.NsMap()
 	for _, n := range g.Env.Ns {
-		if n.Uri == uri && m[n.Prefix] == uri {
+		if n.Uri == uri && m[n.Prefix] == uri && (allowReserved || !reservedWords[n.Prefix]) {
 			return n.Prefix, true
 		}
 	}
 	return "", false
 }
+
+func (g *ExprGen) prefixFor(uri string) (string, bool) { return g.prefixForKind(uri, false) }
 
 func (g *ExprGen) varRef(v VarBind) Expr {
 	if v.Uri == "" {
@@ -307,7 +317,7 @@ func (g *ExprGen) testFor(ax string, j int) Test {
 		if uri == "" {
 			return Pick(r, []Test{{Kind: "name", A: loc}, {Kind: "name", A: loc}, {Kind: "any"}, {Kind: "localany", A: loc}})
 		}
-		if p, ok := g.prefixFor(uri); ok && g.Cfg.NsTests {
+		if p, ok := g.prefixForKind(uri, true); ok && g.Cfg.NsTests {
 			return Pick(r, []Test{{Kind: "qname", A: p, B: loc}, {Kind: "nsany", A: p}, {Kind: "any"}, {Kind: "localany", A: loc}})
 		}
 		return Pick(r, []Test{{Kind: "any"}, {Kind: "localany", A: loc}, {Kind: "node"}})
